@@ -98,7 +98,8 @@ Definition normalize (mask : N) (u : uri) : uri :=
       if bit mask M_PATH then
         let relative := negb (is_some (scheme u)) && negb (absolutePath u) && negb (is_host_set u) in
         let u := set_pathSegs (map fix_pct (pathSegs u)) u in
-        fix_empty_trail_segment (remove_dot_segments relative u)
+        (* uriFixAmbiguity: a host-less path that would begin with "//" gets a "." segment in front *)
+        fix_empty_trail_segment (fix_ambiguity (remove_dot_segments relative u))
       else u in
     let u := if bit mask M_QUERY then set_query (omap fix_pct (query u)) u else u in
     let u := if bit mask M_FRAGMENT then set_fragment (omap fix_pct (fragment u)) u else u in
